@@ -226,6 +226,23 @@ def leanchecker(pid):
 # ------------------------------------------------------------------------------------------
 # leg C: driver
 
+def _private_driver():
+    """this run's own copy of the compiled model: a concurrent `lake build` that relinks the driver (another check after a
+    model change, a builder at work) cannot pull the binary away under a running exploration"""
+    global DRIVER
+    import atexit
+    import shutil
+    if not DRIVER.exists():
+        return
+    priv = LEAN / ".lake" / ("driver_run_%d" % os.getpid())
+    try:
+        shutil.copy2(DRIVER, priv)
+    except OSError:
+        return
+    DRIVER = priv
+    atexit.register(lambda: priv.exists() and priv.unlink())
+
+
 def drive(lines):
     """run the compiled model on protocol lines, return one output line per input line"""
     if not lines:
@@ -548,6 +565,7 @@ def main_check(mod, argv):
                     proof["audit"]["failed"].append("leanchecker rejected the module")
         th = threading.Thread(target=_aud)
         th.start()
+    _private_driver()
     if not DRIVER.exists():
         print("HARNESS-ERROR property=%s model driver missing (build failed)\n%s" % (mod.PID, build_log))
         if th:
